@@ -57,16 +57,29 @@ type run struct {
 	committed map[uint32]*block.Block // first block any validator's consensus produced per height
 	maxTx     int
 	machinery error
+	failed    map[string]int
+	aborted   bool // an oracle failure that makes the rest of the case meaningless
 	fails     int
 	events    int
 	maxView   byte
 	snap      *fairSnapshot
+	commitAt  map[uint32]map[int]byte // height -> validator -> view in which it sent its Commit
+	hadAsync  bool                    // the case had an adversarial prefix
 }
 
 func (r *run) fail(key, format string, a ...any) {
 	r.fails++
+	if r.failed == nil {
+		r.failed = map[string]int{}
+	}
+	r.failed[key]++
+	if r.failed[key] > 1 { // one line per shape and case
+		return
+	}
 	r.o.Fail(key, r.k, format, a...)
 }
+
+func (r *run) ok() bool { return r.machinery == nil && !r.aborted }
 
 func (r *run) line(op string) { r.o.Line(op, "ok") }
 
@@ -76,7 +89,14 @@ func (r *run) line(op string) { r.o.Line(op, "ok") }
 // messages, and runs the per-event oracles.
 func (r *run) settle(nd *node) {
 	if err := nd.sync(); err != nil {
-		if r.machinery == nil {
+		if errors.Is(err, errNoReset) {
+			if !r.aborted {
+				r.fail("no-reset", "node %d: %v", nd.idx, err)
+			}
+			r.aborted = true
+			return
+		}
+		if r.ok() {
 			r.machinery = fmt.Errorf("node %d: %w", nd.idx, err)
 		}
 		return
@@ -102,6 +122,12 @@ func (r *run) settle(nd *node) {
 			r.o.Count("emit:" + m.desc[:2])
 			if m.v > r.maxView {
 				r.maxView = m.v
+			}
+			if m.desc[:2] == "CM" {
+				if r.commitAt[m.h] == nil {
+					r.commitAt[m.h] = map[int]byte{}
+				}
+				r.commitAt[m.h][nd.idx] = m.v
 			}
 			for j := range r.cl.nodes {
 				if j != nd.idx {
@@ -347,7 +373,7 @@ func (r *run) deliverable() []int {
 func (r *run) adversarial() {
 	pf := r.pf
 	w := []int{pf.wDeliver, pf.wDrop, pf.wDup, pf.wTimer, pf.wSilence, pf.wTx, pf.wGive, pf.wRelay}
-	for step := 0; step < pf.steps && r.machinery == nil; step++ {
+	for step := 0; step < pf.steps && r.ok(); step++ {
 		switch r.r.Weighted(w) {
 		case 0:
 			if d := r.deliverable(); len(d) > 0 {
@@ -434,9 +460,9 @@ func (r *run) fair(blocks int) {
 	fires := 0
 	lastHi := start
 	r.snap = nil
-	for r.machinery == nil {
+	for r.ok() {
 		// deliver until quiet
-		for guard := 0; r.machinery == nil; guard++ {
+		for guard := 0; r.ok(); guard++ {
 			progressed := false
 			if len(r.net) > 0 {
 				r.deliver(0, true, false)
@@ -486,13 +512,61 @@ func (r *run) fair(blocks int) {
 				_, th, tv, _ := nd.tm.state()
 				st = append(st, fmt.Sprintf("n%d:h%d/v%d", nd.idx, th, tv))
 			}
-			r.fail("stall", "fair schedule: no new block after height %d within %d timeouts (%s)", hi, fires, strings.Join(st, " "))
+			r.fail(r.stallKey(hi+1), "fair schedule: no new block after height %d within %d timeouts (%s)", hi, fires, strings.Join(st, " "))
 			return
 		}
 		r.fireTimer(best)
 		fires++
 		r.o.Count("fair:timer")
 	}
+}
+
+// stallKey classifies a stall of the synchronous suffix at height h. dBFT 2.0 has a known liveness
+// lock (nspcc-dev/dbft formal-models/README.md, neo-project/neo-modules#792): validators that sent
+// their Commit are frozen in their view, the others have moved to higher views, and no view can
+// gather M participants any more. That shape, reached through an asynchronous prefix, gets its own
+// key; every other stall (in particular any stall of a run that was synchronous from the start) is
+// "stall".
+func (r *run) stallKey(h uint32) string {
+	if !r.hadAsync {
+		return "stall"
+	}
+	m := r.cl.m()
+	committed := r.commitAt[h]
+	views := map[int]byte{} // current view of the uncommitted validators
+	maxV := byte(0)
+	for _, nd := range r.cl.nodes {
+		_, th, tv, _ := nd.tm.state()
+		if th != h {
+			return "stall"
+		}
+		if _, ok := committed[nd.idx]; !ok {
+			views[nd.idx] = tv
+		}
+		if tv > maxV {
+			maxV = tv
+		}
+	}
+	if len(committed) == 0 {
+		return "stall"
+	}
+	for v := 0; v <= int(maxV)+1; v++ {
+		cnt := 0
+		for _, cv := range committed {
+			if int(cv) == v {
+				cnt++
+			}
+		}
+		for _, uv := range views {
+			if int(uv) <= v {
+				cnt++
+			}
+		}
+		if cnt >= m {
+			return "stall"
+		}
+	}
+	return "dbft20-liveness-lock"
 }
 
 // fairSnapshot is taken when the fair phase finds every node on the same height with nothing
@@ -574,7 +648,7 @@ func viewOf(b *block.Block, n int) byte {
 // final: every committed block must be accepted by every ledger, and all ledgers must agree.
 func (r *run) final() {
 	for _, nd := range r.cl.nodes {
-		for r.machinery == nil && r.relay(nd) {
+		for r.ok() && r.relay(nd) {
 		}
 	}
 	_, hi := r.heights()
